@@ -53,6 +53,11 @@ class HeapShim:
         return node
 
 
+def akey(a):
+    """hashable stand-in for an action label (harness-side dictionaries only; msdm gets the label itself)"""
+    return ("__list__",) + tuple(a) if isinstance(a, list) else a
+
+
 def label_maps(case):
     """state / action labels handed to msdm (the generated problem is over indices)"""
     n, sch, asch = case["n"], case.get("labels", "int"), case.get("alabels", "int")
@@ -64,8 +69,9 @@ def label_maps(case):
          "bool01": lambda: [False, True][:n] + list(range(2, n))}[sch]()
     K = 40
     A = {"int": list(range(K)), "str": [""] + ["a%d" % i for i in range(1, K)],
-         "tuple": [()] + [(i,) for i in range(1, K)]}[asch]
-    return L, {l: i for i, l in enumerate(L)}, A, {a: i for i, a in enumerate(A)}
+         "tuple": [()] + [(i,) for i in range(1, K)],
+         "list": [[]] + [[i] for i in range(1, K)]}[asch]            # unhashable action labels
+    return L, {l: i for i, l in enumerate(L)}, A, {akey(a): i for i, a in enumerate(A)}
 
 
 def make_dist(kind, x):
@@ -108,7 +114,7 @@ def build_problem(case):
     from msdm.core.mdp.quickmdp import QuickMDP, QuickTabularMDP
     L, idx, A, aidx = label_maps(case)
     num = num_of(case)
-    succ = {L[s]: {A[int(a)]: (L[int(t)], num(c)) for a, t, c in row} for s, row in enumerate(case["succ"])}
+    succ = {L[s]: {akey(A[int(a)]): (L[int(t)], num(c)) for a, t, c in row} for s, row in enumerate(case["succ"])}
     cont = case.get("actions_container", "tuple")
     # "shared_list": the SAME list object is handed out on every actions(s) call (the caller's own list)
     mk = {"tuple": tuple, "list": list, "dict": dict.fromkeys, "iter": iter, "shared_list": lambda l: l}[cont]
@@ -118,9 +124,9 @@ def build_problem(case):
     start = L[int(case["start"])]
 
     class G(DeterministicShortestPathProblem):
-        def next_state(self, s, a): return succ[s][a][0]
+        def next_state(self, s, a): return succ[s][akey(a)][0]
         def initial_state(self): return start
-        def reward(self, s, a, ns): return -succ[s][a][1]
+        def reward(self, s, a, ns): return -succ[s][akey(a)][1]
         def actions(self, s): return mk(acts[s])
         def is_absorbing(self, s): return goal[s]
     if case["repr"] == "next_state":
@@ -133,12 +139,12 @@ def build_problem(case):
     ik, tk = case["repr"].split("/")
     if case.get("shared_dists"):          # one distribution object per (s, a), handed out on every call
         table = {(s, a): make_dist(tk, ns) for s, row in succ.items() for a, (ns, _) in row.items()}
-        nsd = lambda s, a: table[(s, a)]
+        nsd = lambda s, a: table[(s, akey(a))]
         SNAPSHOTS.append((table, {k: (type(v).__name__, list(v.items())) for k, v in table.items()}))
     else:
-        nsd = lambda s, a: make_dist(tk, succ[s][a][0])
+        nsd = lambda s, a: make_dist(tk, succ[s][akey(a)][0])
     cls = QuickTabularMDP if case.get("tabular") else QuickMDP
-    mdp = cls(next_state_dist=nsd, reward=lambda s, a, ns: -succ[s][a][1], actions=lambda s: mk(acts[s]),
+    mdp = cls(next_state_dist=nsd, reward=lambda s, a, ns: -succ[s][akey(a)][1], actions=lambda s: mk(acts[s]),
               initial_state_dist=make_dist(ik, start), is_absorbing=lambda s: goal[s])
     if case.get("tabular"):               # base object already USED (cached views built) before it is wrapped
         mdp.reachable_states(), mdp.state_list, mdp.action_list
@@ -147,6 +153,43 @@ def build_problem(case):
         except KeyError:
             pass
     return mdp
+
+
+def build_editable(case):
+    """a non-DSP MDP that keeps its definition in attributes of the object, so that it can be EDITED between plans:
+    load(c) rewrites the tables and the start IN PLACE; retarget(c) gives the object new tables (used on a shallow copy)"""
+    from msdm.core.mdp.mdp import MarkovDecisionProcess
+    ik, tk = case["repr"].split("/")
+    cont = case.get("actions_container", "tuple")
+    mk = {"tuple": tuple, "list": list, "dict": dict.fromkeys, "iter": iter, "shared_list": lambda l: l}[cont]
+
+    def tables(c):
+        L, idx, A, aidx = label_maps(c)
+        num = num_of(c)
+        return ({L[s]: {akey(A[int(a)]): (L[int(t)], num(x)) for a, t, x in row} for s, row in enumerate(c["succ"])},
+                {L[s]: [A[int(a)] for a, _, _ in row] for s, row in enumerate(c["succ"])},
+                {L[s]: bool(x) for s, x in enumerate(c["goal"])}, L[int(c["start"])])
+
+    class Editable(MarkovDecisionProcess):
+        def __init__(self):
+            self.succ, self.acts, self.goal, self.start = tables(case)
+
+        def load(self, c):                    # in place: same dict objects, new content
+            succ, acts, goal, start = tables(c)
+            for old, new in ((self.succ, succ), (self.acts, acts), (self.goal, goal)):
+                old.clear()
+                old.update(new)
+            self.start = start
+
+        def retarget(self, c):                # new table objects (the object this one was copied from keeps its own)
+            self.succ, self.acts, self.goal, self.start = tables(c)
+
+        def next_state_dist(self, s, a): return make_dist(tk, self.succ[s][akey(a)][0])
+        def reward(self, s, a, ns): return -self.succ[s][akey(a)][1]
+        def actions(self, s): return mk(self.acts[s])
+        def initial_state_dist(self): return make_dist(ik, self.start)
+        def is_absorbing(self, s): return self.goal[s]
+    return Editable()
 
 
 def describe(res, with_value, case):
@@ -160,7 +203,7 @@ def describe(res, with_value, case):
         sup2 = list(res.policy.action_dist(s).support)       # policy object asked twice
         if len(sup) != 1 or sup != sup2:
             raise ValueError("policy not deterministic at %r" % (s,))
-        acts.append(aidx[sup[0]])
+        acts.append(aidx[akey(sup[0])])
     out = {"plan": {"path": path, "acts": acts}, "visited": sorted(idx[s] for s in res.visited)}
     if with_value:
         out["plan"]["value"] = fj(res.path_value)
@@ -186,7 +229,7 @@ def plan_raw(planner, get_problem, case):
         raw["error"] = type(e).__name__ + ": " + str(e)[:300]
     finally:
         S.random, S.heapq = saved
-    raw["logs"] = {"shuffles": [[aidx[a] for a in l] for l in shim.log["shuffles"]], "randoms": shim.log["randoms"],
+    raw["logs"] = {"shuffles": [[aidx[akey(a)] for a in l] for l in shim.log["shuffles"]], "randoms": shim.log["randoms"],
                    "repushes": sum(k - 1 for k in hshim.pushed.values()),
                    "stale_pops": sum(k - 1 for k in hshim.popped.values())}
     return raw
@@ -283,6 +326,24 @@ def one(case, pl):
         if early is not None:
             res["requery_same"] = (early == res)
         res["other"] = res_other
+    elif case.get("scenario") == "edit_replan":
+        # histories on ONE MDP object: plan, edit the object, plan again; every plan is judged against the object's
+        # definition at the time of the call
+        import copy
+        edited = case["edited"]
+        m = build_editable(case)
+        res = finish_both(plan_both(case, lambda: m), case)
+        if case.get("edit_mode") == "copy":      # shallow copy of an already planned object, then edit the copy
+            c = copy.copy(m)
+            c.retarget(edited)
+            res["edited"] = finish_both(plan_both(edited, lambda: c), edited)
+            res["again"] = finish_both(plan_both(case, lambda: m), case)        # the original is unchanged
+        else:
+            m.load(edited)
+            res["edited"] = finish_both(plan_both(edited, lambda: m), edited)
+            if case.get("edit_mode") == "there_and_back":
+                m.load(case)
+                res["again"] = finish_both(plan_both(case, lambda: m), case)
     else:
         prob = build_problem(case)               # one problem object for both searches
         res = finish_both(plan_both(case, lambda: prob), case)
